@@ -97,7 +97,7 @@ func c09Rand(seed int64, plan int) *rand.Rand {
 	return rand.New(rand.NewSource(int64(h.Sum64())))
 }
 
-var c09Menu = []string{"rmdir", "swap", "xbit", "file2dir", "dir2file", "mkdirs", "mklink", "mkfile", "rmfile", "rmlink", "link2file", "swap", "mkdirs", "mklink"}
+var c09Menu = []string{"deepmk", "rmdir", "swap", "xbit", "file2dir", "dir2file", "mkdirs", "mklink", "mkfile", "rmfile", "rmlink", "link2file", "swap", "mkdirs", "mklink"}
 
 func c09Content(r *rand.Rand) []byte {
 	sizes := []int{0, 1, 17, 300, 2000, 5000, 40000, 70000}
@@ -144,6 +144,14 @@ func c09MakePlan(seed int64, planIndex int, variant string) *c09Plan {
 		kinds = append(kinds, k)
 		if len(kinds) == n {
 			break
+		}
+	}
+	// Every third plan is guaranteed a deep creation (a chain of directories with files only at
+	// the bottom levels), so that faults two and more levels below a directory being created occur.
+	if planIndex%3 == 0 && used["deepmk"] == 0 {
+		kinds = append([]string{"deepmk"}, kinds...)
+		if len(kinds) > 6 {
+			kinds = kinds[:6]
 		}
 	}
 	switch variant {
@@ -244,6 +252,21 @@ func c09MakePlan(seed int64, planIndex int, variant string) *c09Plan {
 				base + "_l":     link(base+"_l", base+"_f1"),
 				base + "_sub":   dir(base+"_sub", map[string]*newNode{base + "_g": file(base+"_g", false)}),
 				base + "_empty": dir(base+"_empty", nil),
+			})
+		case "deepmk":
+			// base/{README, s1/{s2/{f1, f2, s3/{g1, g2}}}}
+			ch.new = dir(base, map[string]*newNode{
+				base + "_README": file(base+"_README", false),
+				base + "_s1": dir(base+"_s1", map[string]*newNode{
+					base + "_s2": dir(base+"_s2", map[string]*newNode{
+						base + "_f1": file(base+"_f1", false),
+						base + "_f2": file(base+"_f2", true),
+						base + "_s3": dir(base+"_s3", map[string]*newNode{
+							base + "_g1": file(base+"_g1", false),
+							base + "_g2": file(base+"_g2", false),
+						}),
+					}),
+				}),
 			})
 		case "mklink":
 			ch.new = link(base, []string{"keep", "pa/keep", "nowhere/x"}[r.Intn(3)])
